@@ -75,15 +75,23 @@ func init() {
 		},
 		"strings.ReplaceAll": func(in *Interp, _ *frame, a []Value) (Value, bool) {
 			o, n := a[1].(*Str), a[2].(*Str)
-			if !o.IsConc() || !n.IsConc() {
-				in.unsupported("strings.ReplaceAll with symbolic old/new")
+			if o.IsConc() && n.IsConc() && a[0].(*Str).AllConc() {
+				return in.mapConc(a[0].(*Str), "strings.ReplaceAll", func(s string) string { return strings.ReplaceAll(s, o.Conc(), n.Conc()) }), true
 			}
-			return in.mapConc(a[0].(*Str), "strings.ReplaceAll", func(s string) string { return strings.ReplaceAll(s, o.Conc(), n.Conc()) }), true
+			if o.IsConc() && o.Conc() == "" {
+				in.unsupported("strings.ReplaceAll with empty old string on symbolic input")
+			}
+			return in.replacerReplace([]*Str{o, n}, a[0].(*Str)), true
 		},
 		"strings.NewReader": func(in *Interp, _ *frame, a []Value) (Value, bool) {
 			return PtrV{in.newCell(Opaque{Kind: "strings.Reader", Obj: a[0]})}, true
 		},
 		"bytes.NewReader": func(in *Interp, _ *frame, a []Value) (Value, bool) {
+			if sl, ok := a[0].(SliceV); ok && sl.B != nil {
+				if blob, ok := in.jsonBlobs[sl.B]; ok {
+					return PtrV{in.newCell(Opaque{Kind: "jsonreader", Obj: blob})}, true
+				}
+			}
 			return PtrV{in.newCell(Opaque{Kind: "strings.Reader", Obj: in.bytesToStr(a[0].(SliceV))})}, true
 		},
 		"path.Clean": func(in *Interp, _ *frame, a []Value) (Value, bool) {
@@ -153,7 +161,10 @@ func init() {
 					return in.hexEncode(SliceV{B: &Backing{E: x.E}, Len: len(x.E), Cap: len(x.E)}), true
 				}
 			}
-			s, ok := in.sprintfModel(a[0].(*Str), a[1].(SliceV))
+			s, ok := in.trySprintf(a[0].(*Str), a[1].(SliceV))
+			if !ok && a[0].(*Str).IsConc() {
+				s, ok = in.simpleSprintf(a[0].(*Str).Conc(), a[1].(SliceV))
+			}
 			if !ok {
 				in.unsupported("fmt.Sprintf with unsupported arguments")
 			}
